@@ -13,6 +13,16 @@ func init() {
 }
 
 func c14(c *q.Ctx) {
+	// a received proposal moves the pacemaker, the pending tree and a vote only after its justify passed CheckProposal -
+	// except the very first justify, which names the tree's GENESIS (not its current root: the root differs from
+	// genesis after a restart or a commit, and a forged justify naming it would by-pass the quorum check)
+	if hp := c.Fn("kernel/consensus/base/driver/chained-bft::(*Smr).handleReceivedProposal"); hp != nil {
+		first := q.Cond{Canon: "bytes.Equal(i:QuorumCertInterface.GetProposalId(p0.qcTree.Genesis.In),chained_bft.(*QuorumCert).GetProposalId(local<QuorumCert>))", Sense: true}
+		for _, tgt := range []string{"PacemakerInterface.AdvanceView", "QCPendingTree.updateCommit", "QCPendingTree.updateQcStatus", "Smr.voteProposal"} {
+			c.Gate(hp, "saftyRulesInterface.CheckProposal", q.ToCall(tgt), q.Opt{Unless: []q.Cond{first}})
+		}
+		c.ArgIs(hp, "saftyRulesInterface.CheckProposal", 1, "local<QuorumCert>", 1, "the justify that is checked is the one carried by the proposal")
+	}
 	const bft = "kernel/consensus/base/driver/chained-bft::"
 	cp := c.Fn(bft + "(*DefaultSaftyRules).CheckProposal")
 	entry := "i:QuorumCertInterface.GetSignsInfo(p2)[]"
